@@ -113,6 +113,19 @@ def type_names():
 KIND_ORDER = ["str", "sid", "int", "float", "bool", "opt", "li", "dna", "strand", "inner"]
 
 
+ALPHAS = ["ACGTEncoding", "ACTGEncoding", "ACGTnEncoding", "ACTGnEncoding", "ACUGEncoding", "AminoAcidEncoding",
+          "CigarOpEncoding", "BamEncoding", "DigitEncoding"]
+
+
+def _alpha(name):
+    from bionumpy.encodings import alphabet_encoding as ae
+    return getattr(ae, name)
+
+
+def _alphabet(name):
+    return "".join(_alpha(name).get_alphabet())
+
+
 def _forms():
     """argument forms a constructor may be given (each a zero-argument factory of a 2-row column)"""
     import pandas as pd
@@ -132,6 +145,8 @@ def _forms():
         "nd_str": lambda: np.array(["ACG", "T"]),
         "nd_obj_int": lambda: np.array([1, 2], dtype=object),
         "series_obj_int": lambda: pd.Series([1, 2], dtype=object),
+        "actg_ragged": lambda: bnp.as_encoded_array(["ACT", "A"], _alpha("ACTGEncoding")),      # other alphabet, shared prefix AC
+        "actg_flat": lambda: bnp.as_encoded_array("ACT", _alpha("ACTGEncoding")),
         "encoded_ragged": lambda: bnp.as_encoded_array(["ACG", "T"]),
         "dna_ragged": lambda: bnp.as_encoded_array(["ACG", "T"], bnp.DNAEncoding),
         "string_array": lambda: as_string_array(["ACG", "T"]),
@@ -146,7 +161,7 @@ def _forms():
 
 
 FORM_ORDER = ["list_str", "list_int", "list_float", "list_bool", "list_none", "nd_int", "nd_float", "nd_bool", "nd_str",
-              "nd_obj_int", "series_obj_int", "encoded_ragged", "dna_ragged", "string_array", "ragged_int", "list_list_int", "table", "list_entries",
+              "nd_obj_int", "series_obj_int", "actg_ragged", "actg_flat", "encoded_ragged", "dna_ragged", "string_array", "ragged_int", "list_list_int", "table", "list_entries",
               "series_str", "series_int", "strand_str"]
 
 # the declared type's column classes (what "converted to its declared type" means for each field kind)
@@ -162,6 +177,26 @@ ALLOWED = {
     "strand": ["encflat:alpha"],
     "inner": ["table"],
 }
+
+
+def _col_class(m, v):
+    from npstructures import RaggedArray
+    from bionumpy.string_array import StringArray
+    from bionumpy.encoded_array import EncodedArray, EncodedRaggedArray
+    bnp = m["bnp"]
+    if isinstance(v, np.ndarray):
+        return "ndarray:" + v.dtype.kind
+    if isinstance(v, EncodedRaggedArray):
+        return "encragged:" + ("base" if v.encoding == bnp.BaseEncoding else "alpha")
+    if isinstance(v, EncodedArray):
+        return "encflat:" + ("base" if v.encoding == bnp.BaseEncoding else "alpha")
+    if isinstance(v, StringArray):
+        return "stringarray"
+    if isinstance(v, RaggedArray):
+        return "ragged:" + v.dtype.kind
+    if isinstance(v, m["BNPDataClass"]):
+        return "table"
+    return "other:" + type(v).__name__
 
 
 def construct_outcome(kind, form):
@@ -383,6 +418,13 @@ def oracle(c):
                 return SKIP          # ragged tuples: outside "rectangular input"
             return {"err": "raise"}
         return {"rows": c["rows"], "width": c["width"]}
+    if c["op"] == "construct_enc":
+        return {"same_text_or_raise": c["text"]}
+    if c["op"] == "sort_text":
+        order = sorted(range(len(c["texts"])), key=lambda i: c["texts"][i].encode())
+        return {"ids": order, "texts": [c["texts"][i] for i in order]}
+    if c["op"] == "add_twice":
+        return {"each_honours_its_type": True}
     if c["op"] == "sort_long":
         return {"first": "n%d" % (c["rows"] - 2), "last": "n%d" % (c["rows"] - 1), "n": c["rows"]}
     if c["op"] == "dict":
@@ -564,6 +606,49 @@ def cases(tier, rng):
     for k in KIND_ORDER:
         for f in FORM_ORDER:
             yield {"op": "construct_cell", "type": "D_all", "kind": k, "form": f}
+    # 1d. alphabet-encoded fields given data ALREADY encoded in another alphabet (shared prefix): construction,
+    #     replace and add_fields must keep the text or raise; texts chosen around the first differing position
+    hows = ["construct", "replace", "add"]
+    ci = 0
+    for D in ALPHAS:
+        for S in ALPHAS:
+            if D == S:
+                continue
+            a, b = _alphabet(D), _alphabet(S)
+            pfx = 0
+            while pfx < min(len(a), len(b)) and a[pfx] == b[pfx]:
+                pfx += 1
+            lo, hi = max(0, pfx - 1), min(len(b), pfx + 2)
+            letters = sorted(set(b[lo:hi] + b[:1]), key=b.index)
+            texts = {b[:pfx + 1], b[:pfx], b[:pfx + 2], b[pfx:pfx + 1], b[pfx + 1:pfx + 2], b[max(0, pfx - 1):pfx]} - {""}
+            if big:
+                texts |= {"".join(t) for l in (1, 2, 3) for t in itertools.product(letters, repeat=l)}
+            for t in sorted(texts):
+                for how in (hows if big else [hows[ci % 3]]):
+                    ci += 1
+                    yield {"op": "construct_enc", "type": "D_all", "declared": D, "source": S, "text": t, "how": how,
+                           "shape": "ragged"}
+                if big or ci % 4 == 0:
+                    yield {"op": "construct_enc", "type": "D_all", "declared": D, "source": S, "text": t, "how": "construct",
+                           "shape": "flat"}
+    # 1e. sort_by a text key where one key is another key plus trailing letters of the smallest code, keys that differ
+    #     only in length, the empty key; every arrangement (longer first, ...)
+    fam = {"dna": ["AC", "ACA", "ACAA", "", "A", "C", "AAC", "CA"],
+           "str": ["ab", "ab ", "ab  ", "", "a", "b", "aba", " a"],
+           "digit": ["12", "120", "1200", "", "1", "0", "012", "2"]}
+    for kind, texts in fam.items():
+        for k in ((2, 3, 4) if big else (2, 3)):
+            for sel in itertools.permutations(texts, k):
+                if not big and k == 3 and rng.random() < 0.5:
+                    continue
+                yield {"op": "sort_text", "type": "D_all", "kind": kind, "texts": list(sel)}
+    # 1f. history: two add_fields calls in one process, same class, same new field name, different declared types
+    kinds2 = ["int", "str", "float", "dna", "sid", "bool"]
+    for base in ("D_num", "Interval"):
+        for k1 in kinds2:
+            for k2 in kinds2:
+                if k1 != k2:
+                    yield {"op": "add_twice", "type": base, "k1": k1, "k2": k2, "n": 2}
     # 1b'. sort_by a text column with one very long row (cost must follow the amount of text, not rows x longest row)
     yield {"op": "sort_long", "type": "D_all", "rows": 2000, "long": 500000}
     # 1c. nested tables <-> flat dicts with dotted keys (todict / from_dict / pandas), nesting depth <= 3,
@@ -714,6 +799,69 @@ def impl(c):
             return {"rows": _rows_tolist(t, kinds), "width": len(dataclasses.fields(t))}
         except Exception as e:
             return {"err": "raise", "exc": type(e).__name__}
+    if c["op"] == "construct_enc":
+        from bionumpy.bnpdataclass import make_dataclass
+        bnp = m["bnp"]
+        D, S = _alpha(c["declared"]), _alpha(c["source"])
+        key = ("enc_cls", c["declared"])
+        if key not in _CACHE:
+            _CACHE[key] = make_dataclass([("seq", D), ("i", int)], name="Enc_" + c["declared"])
+        T = _CACHE[key]
+        text = c["text"]
+        dtext = _alphabet(c["declared"])[0]
+        try:
+            if c["shape"] == "flat":
+                x = bnp.as_encoded_array(text, S)
+                n = len(text)
+            else:
+                x = bnp.as_encoded_array([text, text[:1]], S)
+                n = 2
+            if c["how"] == "construct":
+                col = T(x, list(range(n))).seq
+            elif c["how"] == "replace":
+                col = bnp.replace(T([dtext] * n, list(range(n))), seq=x).seq
+            else:
+                col = T([dtext] * n, list(range(n))).add_fields({"y": x}, {"y": D}).y
+            got = col.tolist()
+            got = list(got) if isinstance(got, str) else got
+            return {"text": got, "encoding_is_declared": bool(col.encoding == D)}
+        except Exception as e:
+            return {"err": "raise", "exc": type(e).__name__}
+    if c["op"] == "sort_text":
+        from bionumpy.bnpdataclass import make_dataclass
+        key = ("sort_cls", c["kind"])
+        if key not in _CACHE:
+            ft = {"dna": m["pytype"]["dna"], "str": str, "digit": _alpha("DigitEncoding")}[c["kind"]]
+            _CACHE[key] = make_dataclass([("k", ft), ("i", int), ("tag", str)], name="Sort_" + c["kind"])
+        try:
+            texts = c["texts"]
+            t = _CACHE[key](texts, list(range(len(texts))), ["t%d" % i for i in range(len(texts))]).sort_by("k")
+            ids = [int(x) for x in t.i]
+            tags = t.tag.tolist()
+            if tags != ["t%d" % i for i in ids]:
+                return {"ids": ids, "texts": t.k.tolist(), "rows_torn": tags}
+            return {"ids": ids, "texts": t.k.tolist()}
+        except Exception as e:
+            return {"err": "raise", "exc": type(e).__name__}
+    if c["op"] == "add_twice":
+        n = c["n"]
+        out = {}
+        try:
+            t = _table(m, c["type"], [[3 + i for i in range(n)] for _ in kinds])
+            res = []
+            for j, k in enumerate((c["k1"], c["k2"])):
+                seeds = [20 + 5 * j + i for i in range(n)]
+                r = t.add_fields({"extra": _column(m, k, seeds)}, field_type_map={"extra": m["pytype"][k]})
+                res.append((k, seeds, r))
+            for tag, (k, seeds, r) in zip(("first", "second"), res):      # observed after BOTH calls
+                col = r.extra
+                vals = [canon_cell(k, _py(getattr(e, "extra"))) for e in r.tolist()]
+                out[tag] = {"cls": _col_class(m, col), "ok_cls": _col_class(m, col) in ALLOWED[k],
+                            "ok_vals": vals == [canon_cell(k, cell(k, s_)) for s_ in seeds],
+                            "declared": str(dataclasses.fields(r)[-1].type) == str(m["pytype"][k])}
+            return out
+        except Exception as e:
+            return {"err": "raise", "exc": type(e).__name__}
     if c["op"] == "sort_long":
         from bionumpy.datatypes import SequenceEntry
         n = c["rows"]
@@ -800,6 +948,16 @@ def _same(c, got, ref):
 
 
 def agree(c, got, exp):
+    if c["op"] == "construct_enc":
+        if isinstance(got, dict) and got.get("err") == "raise":
+            return True
+        want = [c["text"], c["text"][:1]] if c["shape"] == "ragged" else list(c["text"])
+        return isinstance(got, dict) and got.get("text") == want and got.get("encoding_is_declared") is True
+    if c["op"] == "sort_text":
+        return core.canon(got) == core.canon(exp)
+    if c["op"] == "add_twice":
+        return isinstance(got, dict) and all(tag in got and all(got[tag][f] is True for f in ("ok_cls", "ok_vals", "declared"))
+                                             for tag in ("first", "second"))
     if c["op"] == "sort_long":
         return core.canon(got) == core.canon(exp)
     if c["op"] == "dict":
@@ -815,7 +973,15 @@ def agree(c, got, exp):
     return got.get("unchanged") is True and all(v is True for v in got["final"].values())
 
 
+def agree_spec(c, s, exp):
+    if c["op"] == "sort_text":
+        return isinstance(s, dict) and "rows" in s and [r[0] for r in s["rows"]] == exp["ids"]
+    return core.canon(s) == core.canon(exp)
+
+
 def agree_model(c, got, m):
+    if c["op"] == "sort_text":
+        return isinstance(got, dict) and "rows" in m and got.get("ids") == [r[0] for r in m["rows"]] and "rows_torn" not in got
     if c["op"] == "dict":
         return core.canon(got) == core.canon(m)
     return _same(c, got, m)
@@ -850,12 +1016,23 @@ def model_request(c):
         return {"op": "roundtrip", "rows": c["rows"], "width": c["width"]}
     if c["op"] == "dict":
         return {"op": "dict", "schema": c["schema"]}
+    if c["op"] == "sort_text":
+        n = len(c["texts"])
+        order = sorted(set(t.encode() for t in c["texts"]))
+        keys = [[i, order.index(c["texts"][i].encode())] for i in range(n)]
+        return {"op": "program", "cols": [list(range(n)), list(range(n))], "ops": [{"k": "sort", "j": 0, "keys": keys}]}
     return None
 
 
 def finding_key(c, got, exp):
     m = _mods()
     kinds = m["classes"][c["type"]][1]
+    if c["op"] == "construct_enc":
+        return "construct:encoded-in-other-alphabet-" + ("silently-different-text" if "text" in got else "other")
+    if c["op"] == "sort_text":
+        return "sort_by:text-order-" + c["kind"]
+    if c["op"] == "add_twice":
+        return "add_fields:history-" + c["k1"] + "-then-" + c["k2"]
     if c["op"] == "sort_long":
         return "sort_by:long-row"
     if c["op"] == "dict":
